@@ -85,9 +85,15 @@ class BlockingExecutor(Executor):
                 parent_value, self.context_value, info
             )
 
-        return self.complete_value(
-            field_definition.type, nodes, path, info, resolved
-        )
+        try:
+            return self.complete_value(
+                field_definition.type, nodes, path, info, resolved
+            )
+        except (CoercionError, ResolverError) as err:
+            # Same as the generic executor, where completion runs under the
+            # error branch of the resolver call.
+            self.add_error(err, path, node)
+            return None
 
     def complete_list_value(
         self,
